@@ -383,4 +383,5 @@ wfm = {
     ArgType.I64: lambda writer, arg: writer.write_vs64(arg),
     ArgType.F32: lambda writer, arg: writer.write_f32(arg),
     ArgType.F64: lambda writer, arg: writer.write_f64(arg),
+    ArgType.U8x16: lambda writer, arg: writer.write(bytes(arg)),
 }
